@@ -70,6 +70,32 @@ def failfast_scenario(viol, stats):
             pr.destroy()
 
 
+def oob_scenario(viol, stats):
+    """Out-of-band re-decision (redo-unlocked): T depends on a checksummed m and on y (which depends on m).  After the
+    source of m changes, `redo-ifchange T` rebuilds m first and then runs T.do in unlocked mode for T only; T.do's own
+    `redo-ifchange m y` must lock y as usual.  A second invocation asks for y meanwhile."""
+    pr = Project()
+    try:
+        pr.write("src", "1\n")
+        pr.write("m.do", 'redo-ifchange src\ncat src >"$3"\nredo-stamp <"$3"\n')
+        pr.write("y.do", 'redo-ifchange m\necho "B $$ y $(date +%s%N)" >>"$VERIF_WORK"; sleep 0.7; echo "E $$ y $(date +%s%N)" >>"$VERIF_WORK"\ncat m\n')
+        pr.write("T.do", "redo-ifchange m y\ncat m y\n")
+        r0 = sched.run_cmds(pr, [["redo-ifchange", "T"]], timeout=30)[0]
+        pr.write("src", "2\n")
+        rs = sched.run_cmds(pr, [["redo-ifchange", "T"], ["redo-ifchange", "y"]], timeout=30, stagger=0.35)
+        stats["runs"] += 2
+        stats["oob_jobs"] = stats.get("oob_jobs", 0) + sum(1 for e in rs[0].trace if e[2] == "job.oob")
+        ans, ev = sched.replay_locks(rs[0].trace)
+        over, counts = sched.target_overlaps(sched.parse_work(pr.path(".verif-work")))
+        bad = r0.rc != 0 or any(r.rc != 0 or r.timed_out for r in rs) or over or not ans.startswith("ok") or pr.read("T") != b"2\n2\n"
+        if bad:
+            p = write_replay("C06", "oob", dict(kind="trace-rejected+impl-monitor", answer=ans, events=ev, overlaps=over, rcs=[r0.rc] + [r.rc for r in rs], T=repr(pr.read("T")),
+                                                commands=["redo-ifchange T", "echo 2 >src", "redo-ifchange T & (0.35 s later) redo-ifchange y"], stderr=[r.err[-800:] for r in rs]))
+            viol.append(Violation("C06", p, "rebuild through redo-unlocked beside a second invocation: model: %s; overlapping executions: %r; statuses %r; T=%r" % (ans[:160], over, [r.rc for r in rs], pr.read("T"))))
+    finally:
+        pr.destroy()
+
+
 def run(ctx):
     rng = random.Random(ctx["seed"] * 19 + 6)
     viol = ctx.setdefault("violations", [])
@@ -119,12 +145,37 @@ def run(ctx):
                 break
             if len(samples) < 2 and k > 1:
                 samples.append(dict(scenario=scen, answer=ans, first_events=ev[:16]))
+            # second round on the built project: the script of a low node changes, so checksummed nodes above it are
+            # "maybe dirty" and their dependents are re-decided out of band (redo-unlocked) while other invocations compete
+            stamped = [a for a, v in g.items() if v.get("stamp")]
+            if stamped and not any(v["fail"] for v in g.values()) and all(r.rc == 0 for r in rs):
+                low = sorted(g)[0]
+                pr.write(low + ".do", open(pr.path(low + ".do")).read() + "# round 2\n")
+                cmds2 = [rng.choice([["redo-ifchange", "all"], ["redo", "-j2", "all"], ["redo-ifchange", rng.choice(sorted(g))]]) for _ in range(rng.choice([2, 3]))]
+                rs2 = sched.run_cmds(pr, cmds2, timeout=60, stagger=rng.choice([0, 0.02, 0.08]))
+                stats["runs"] += 1
+                stats["invocations"] += len(cmds2)
+                stats["second_rounds"] = stats.get("second_rounds", 0) + 1
+                stats["oob_jobs"] = stats.get("oob_jobs", 0) + sum(1 for e in rs2[0].trace if e[2] == "job.oob")
+                ans2, ev2 = sched.replay_locks(rs2[0].trace)
+                over2, counts2 = sched.target_overlaps(rs2[0].work)
+                scen2 = dict(scen, second_round=cmds2, changed=low + ".do", stamped=stamped)
+                if over2:
+                    p = write_replay("C06", "overlap2-%d" % i, dict(kind="impl-monitor", scenario=scen2, overlapping=over2, work=rs2[0].work[:200], model=ans2))
+                    viol.append(Violation("C06", p, "two executions of the build script of %r overlapped in time in a rebuild with out-of-band re-decisions (%s)" % (over2, cmds2)))
+                    break
+                if not ans2.startswith("ok"):
+                    p = write_replay("C06", "trace2-%d" % i, dict(kind="trace-rejected-by-model", scenario=scen2, answer=ans2, events=ev2, stderr=[r.err[-600:] for r in rs2]))
+                    viol.append(Violation("C06", p, "lock/job trace of a rebuild rejected by the model: " + ans2, no_input="local" not in ans2 and "kernel" not in ans2))
+                    break
         finally:
             pr.destroy()
     if not viol:
         abandon_scenario(viol, known_hit, stats)
     if not viol:
         failfast_scenario(viol, stats)
+    if not viol:
+        oob_scenario(viol, stats)
     return dict(evaluations=stats["events"], distinct_nontrivial=stats["runs"],
-                rule="seeded random graphs (3-9 targets; failing, checksummed, always targets) built by 1-3 simultaneously started invocations (redo -j1..3 [-k], redo-ifchange of the whole graph or one target) with start offsets 0-150 ms; every lock/job event replayed by the Lean acceptor; scripts record their own begin/end for the overlap monitor; plus the error-while-jobs-run scenario and the failing-sibling-while-a-job-runs scenario (second invocation asks for the running target); distinct = runs",
+                rule="seeded random graphs (3-9 targets; failing, checksummed, always targets) built by 1-3 simultaneously started invocations (redo -j1..3 [-k], redo-ifchange of the whole graph or one target) with start offsets 0-150 ms; every lock/job event replayed by the Lean acceptor; scripts record their own begin/end for the overlap monitor; plus the error-while-jobs-run scenario and the failing-sibling-while-a-job-runs scenario (second invocation asks for the running target), the out-of-band (redo-unlocked) rebuild beside a second invocation, and a second round on every project with checksummed nodes; distinct = runs",
                 samples=samples, traces_validated_against_impl=stats["runs"], disagreements_checked=stats["events"], distribution=stats, known_hit=known_hit)
